@@ -16,6 +16,7 @@ def _ints(x):
 
 
 SHARED = "initarg-shared-by-two-slots"
+LOSTMETH = "message-methods-lost-at-redefinition"
 
 
 def judge(stim, ev):
@@ -24,8 +25,8 @@ def judge(stim, ev):
     is still judged)."""
     known = set()
     for i, st in enumerate(ev["defs"]):
-        if st and stim["ops"][i]["op"] == "defclass":
-            return f"defclass {i + 1} failed: {st}", known
+        if st and stim["ops"][i]["op"] in ("defclass", "defmeth"):
+            return f"{stim['ops'][i]['op']} {i + 1} failed: {st}", known
     for c, ex in stim["expect"].items():
         ob = ev["obs"].get(c)
         if ob is None:
@@ -52,6 +53,13 @@ def judge(stim, ev):
                     return f"{c}: slots (s u) with :s 77 are {arg} want {[ex['s1'], ex['u1']]}", known
             elif ex["s1"] == 77 and ob["reader"] != "77":
                 return f"{c}: reader of s answers {ob['reader']} want 77", known
+        # the method that answers: of the first class of the precedence list that has one (message and generic function)
+        for key in ("who", "whog"):
+            if key == "who" and ob[key] != ex["who"] and ob[key] == ex["whodev"]:
+                known.add(LOSTMETH)      # finding C12-F3: exactly the answer the named deviation (Clos!lost) gives
+                continue
+            if ob[key] != ex["who"]:
+                return f"{c}: {'(send i :who)' if key == 'who' else 'the generic function'} is answered by the method of {ob[key]} want {ex['who']}", known
         if ob["classof"] != c:
             return f"{c}: class-of a fresh instance is {ob['classof']}", known
         if sorted(ob["isa"]) != sorted(ex["isa"]):
